@@ -47,6 +47,10 @@ impl FromStr for PreSet {
         let value = s[pos + 1..].to_string();
         let mut reader = from_string(&value);
         let value = read_getter(&mut reader)?;
+        reader.eat_whitespace().map_err(SelectionParseError::from)?;
+        if let Some(ch) = reader.peek().map_err(SelectionParseError::from)? {
+            return Err(SelectionParseError::ExpectingEof(reader.where_am_i(), ch as char).into());
+        }
         if let Some(macro_name) = key.strip_prefix('@') {
             if macro_name.is_empty() {
                 Err(PreSetParserError::EmptyName(s.to_owned()))
